@@ -136,7 +136,7 @@ pub fn gen_base(rng: &mut Rng, cfg: &BaseCfg) -> (J, StdTable, Sel, Shape) {
         if !ul.is_empty() && rng.chance(1, 3) { for _ in 0..(1 + rng.below(3)) { let l = ul[rng.below(ul.len())].clone(); let at = rng.below(ul.len() + 1); ul.insert(at, l); } }
         joined = Some(ul);
         let key = *rng.pick(&["k", "g"]);
-        sel.join = Some(Join { outer: shape == Shape::Join && rng.chance(1, 3), table: "u".into(), file: "@JOINED@".into(), left: ("t".into(), key.into()), right: ("u".into(), key.into()) });
+        sel.join = Some(Join { outer: rng.chance(1, 3), table: "u".into(), file: "@JOINED@".into(), left: ("t".into(), key.into()), right: ("u".into(), key.into()) });
         if shape == Shape::Join {
             // conditions on the joined side's columns: some partners of a line yield no row, later ones do
             if rng.chance(1, 2) {
